@@ -437,6 +437,26 @@ fn run_with<M: MemoizerKind>(
 
     let col_args = pairs.as_ref().map(|p| mk_args(p, "collect"));
     let mut e5 = vec![];
+    // one error vector shared by consecutive calls: what a call appends must not depend on what is already there
+    let mut shared_errs = vec![];
+    let sh1 = bundle.format_pattern(pattern, args.as_ref(), &mut shared_errs).to_string();
+    let n1 = shared_errs.len();
+    let sh2 = bundle.format_pattern(pattern, args.as_ref(), &mut shared_errs).to_string();
+    let n2 = shared_errs.len();
+    let mut sh3 = String::new();
+    bundle
+        .write_pattern(&mut sh3, pattern, args.as_ref(), &mut shared_errs)
+        .expect("HARNESS: write");
+    let n3 = shared_errs.len();
+    let shared_ok = sh1 == sh2
+        && sh2 == sh3
+        && n2 - n1 == n1
+        && n3 - n2 == n1
+        && shared_errs[..n1] == shared_errs[n1..n2]
+        && shared_errs[..n1] == shared_errs[n2..n3]
+        && shared_errs[..n1] == e2[..];
+    log_take();
+
     let col = bundle.format_pattern(pattern, col_args.as_ref(), &mut e5).to_string();
     let col_s = res_pair("collect", &col, &e5);
     log_take();
@@ -455,6 +475,7 @@ fn run_with<M: MemoizerKind>(
             col_s,
             list(vec![sym("wcalls"), int(wcalls as i64)]),
             list(vec![sym("permall"), sbool(permall)]),
+            list(vec![sym("sharederrs"), sbool(shared_ok)]),
             list(vec![sym("slow"), sbool(elapsed.as_millis() > 3000)]),
         ]),
     ])
